@@ -157,6 +157,30 @@ loop:
 			if perr != nil {
 				res.Classes = append(res.Classes, "manifest-push-failed-on-index-save")
 			}
+			// a Tag whose save fails, then the caller's retry of the very same call: once
+			// it returns nil the reference is on disk
+			if err := os.Mkdir(obst, 0o755); err == nil {
+				terr := s.Tag(ctx, d.Nodes[2].Desc, "retried")
+				os.Remove(obst)
+				if terr != nil {
+					if rerr := s.Tag(ctx, d.Nodes[2].Desc, "retried"); rerr != nil {
+						return res, vt.Failf("C10/tag-failed", "retry of a Tag whose index save had failed: %v", rerr)
+					}
+					res.Classes = append(res.Classes, "tag-retried-after-failed-save")
+				}
+				idx, ierr := fsx.ReadIndex(dir)
+				found := false
+				if ierr == nil {
+					for _, m := range idx.Manifests {
+						if m.Annotations["org.opencontainers.image.ref.name"] == "retried" {
+							found = true
+						}
+					}
+				}
+				if !found {
+					return res, vt.Failf("C10/returned-effect-lost", "Tag(\"retried\") failed on its index save (%v), the retry returned nil, yet index.json does not list the reference (err %v): a crash now loses an operation that had returned", terr, ierr)
+				}
+			}
 			if err := s.Tag(ctx, d.Nodes[1].Desc, "after-the-failed-save"); err != nil {
 				return res, vt.Failf("C10/tag-failed", "Tag after a failed index save: %v", err)
 			}
